@@ -469,10 +469,21 @@ pub fn exec_c04(case: &CCase) -> CaseReport {
                     match run2.sim.raw_get(key) {
                         Ok(LookupOut::Hit { decoded: Decoded::Valid { key: k2, version }, .. }) if k2 == key && version == *v => {}
                         Ok(LookupOut::Miss) if reclaimed2 || sb > 0 || sc > 0 => {}
-                        Ok(other) => failures.push(Failure::new(
-                            "post-restart-write-not-superseding",
-                            format!("{} then restart cycle: key {key} was inserted with version {v} after the restart and flushed, but get({key}) = {other:?}", snap.label),
-                        )),
+                        Ok(other) => {
+                            // the known multi-block-batch finding (shared with C09 / C01), identified from the device log
+                            let stale = match &other {
+                                LookupOut::Hit { decoded: Decoded::Valid { key: k2, version }, .. } if *k2 == key => Some(*version),
+                                _ => None,
+                            };
+                            let log: Vec<crate::simdev::LogRec> = run2.sim.full_log().into_iter().map(|(_, r)| r).collect();
+                            let known = stale
+                                .map(|st| crate::hyboracle::older_written_after_newer_in(log.iter(), 4096, if case.tombstone { Some(0) } else { None }, key, st))
+                                .unwrap_or(false);
+                            failures.push(Failure::new(
+                                if known { "stale-entry-after-reuse+both-versions-in-one-multi-block-batch" } else { "post-restart-write-not-superseding" },
+                                format!("{} then restart cycle: key {key} was inserted with version {v} after the restart and flushed, but get({key}) = {other:?}", snap.label),
+                            ))
+                        }
                         Err(_) => failures.push(Failure::new("lookup-hangs-after-crash", format!("{}: restart cycle get({key}) never resolves", snap.label))),
                     }
                 }
